@@ -7,6 +7,8 @@ C05 - inheritance is computed as Python computes it.  Decides consumers and the 
   R05.4 bases are resolved in the scope enclosing the class, in both resolution passes; generic subscripts are stripped
   R05.5 masking of inherited members ignores documentation privacy (templatewriter.util.unmasked_attrs)
   R05.6 class-private names (__x) are not matched across classes (Python's name mangling)
+  R05.7 an empty docstring ends the docstring search; sibling branches do not share the cycle-detection path
+  R05.8 the class page drops the first inheritance chain only when it is the class itself
 Does not decide: that mro._merge is C3 (an algorithmic equality with type.__mro__).
 """
 from __future__ import annotations
@@ -164,7 +166,23 @@ def run(repo: Repo, chk: Check, thorough: bool = False) -> None:
     ok = bool(mg) and len(mg[0].args) == 2 and isinstance(mg[0].args[0], ast.Starred) and 'getbases(cls)' in norm(mg[0].args[1])
     chk.ob('R05.3', 'pydoctor.mro.mro :: merge of the parents\' linearisations and the list of parents', ok,
            '_merge(*[mro(k) for k in bases], bases)' if ok else 'the C3 merge no longer receives the local precedence list', mm.loc)
-    chk.require('R05.3', 4)
+    # every value stored as the linearisation starts with the class itself: compute_mro(self) does (mro.mro, above); the fallback for an
+    # inconsistent hierarchy must ask allbases() to include the class
+    for w_ in [n for f_ in repo.funcs.values() if f_.cls is not None and f_.cls.qn == f'{M}.Class' for n in f_.walk()
+               if isinstance(n, ast.Assign) and any(isinstance(t, ast.Attribute) and t.attr == '_mro' and dotted(t.value) == 'self' for t in n.targets)]:
+        v = w_.value
+        calls_ab = [c for c in ast.walk(v) if isinstance(c, ast.Call) and call_name(c) == 'allbases']
+        if isinstance(v, ast.Constant) and v.value is None:
+            continue
+        if calls_ab:
+            c = calls_ab[0]
+            inc = (c.args and isinstance(c.args[0], ast.Constant) and c.args[0].value is True) or \
+                any(k.arg == 'include_self' and isinstance(k.value, ast.Constant) and k.value.value is True for k in c.keywords)
+            chk.ob('R05.3', f'{M}.Class :: `{norm(w_)[:50]}` starts with the class itself', bool(inc),
+                   'allbases(True)' if inc else
+                   f'`{norm(v)[:50]}` leaves the class out of its own linearisation: mro() no longer starts with the class, mro(include_self=False) drops the first '
+                   'base instead, and Class.find() misses the members of the class itself', repo.loc(repo.mod(M), w_))
+    chk.require('R05.3', 5)
 
     # ------------------------------------------------------------------ R05.4
     vc = repo.func('pydoctor.astbuilder.ModuleVistor.visit_ClassDef')
@@ -240,4 +258,65 @@ def run(repo: Repo, chk: Check, thorough: bool = False) -> None:
                'members are matched by their source spelling only: `Derived.__check` inherits the docstring of `Base.__check`, is shown as overriding it and hides '
                'it from the inherited members, although at run time `_Base__check` and `_Derived__check` are unrelated attributes', f.loc)
     chk.require('R05.6', 4)
+
+    # ------------------------------------------------------------------ R05.7
+    # (a) the search for the first docstring along the linearisation stops at the first source that HAS a docstring, also an empty one
+    #     (at run time `__doc__ == ''` is what the attribute lookup yields; nothing further along the MRO is inherited)
+    gd = repo.func(f'{M}.get_docstring')
+    cfd = CFG(gd)
+    loops = [n for n in gd.walk() if isinstance(n, ast.For) and any(call_name(c) == 'docsources' for c in ast.walk(n.iter) if isinstance(c, ast.Call))]
+    if not loops:
+        raise AnalysisError('R05.7: get_docstring no longer iterates docsources()')
+    lp = loops[0]
+    dv = next((t.id for n in lp.body if isinstance(n, ast.Assign) and isinstance(n.value, ast.Attribute) and n.value.attr == 'docstring'
+               for t in n.targets if isinstance(t, ast.Name)), None)
+    if dv is None:
+        raise AnalysisError('R05.7: get_docstring no longer reads <source>.docstring into a local')
+
+    def is_none_edge(e: ast.AST, pol: bool) -> bool:
+        if isinstance(e, ast.UnaryOp) and isinstance(e.op, ast.Not):
+            return is_none_edge(e.operand, not pol)
+        if isinstance(e, ast.Compare) and len(e.ops) == 1 and norm(e.left) == dv and norm(e.comparators[0]) == 'None':
+            return pol == isinstance(e.ops[0], ast.Is)
+        return False
+    none_edges = [(nid, id(t), k) for nid, edges in cfd.succ.items() for (t, l, k) in edges if l is not None and is_none_edge(l[0], l[1])]
+    rets = [n for st in lp.body for n in ast.walk(st) if isinstance(n, ast.Return)]
+    r_ = cfd.reachable(lp.body[0], avoid_nodes=rets, avoid_edges=none_edges, no_exc=True)
+    goes_on = id(lp) in r_
+    chk.ob('R05.7', f'{M}.get_docstring :: an empty docstring ends the search like any other docstring', not goes_on,
+           f'the next source is only consulted when `{dv} is None`' if not goes_on else
+           'after an empty docstring the loop goes on to the next class of the linearisation: an override documented with "" inherits the text of a definition '
+           'further along the MRO, whereas at run time its __doc__ is the empty string', repo.loc(gd.mod, lp))
+    # (b) the two recursive walks that set up the base objects keep one path per branch: siblings must not share the list used to detect cycles
+    ifb2 = repo.func(f'{M}.compute_mro.init_finalbaseobjects')
+    pth = ifb2.params()[1].arg if len(ifb2.params()) > 1 else None
+    recs = [c for c in calls_in(ifb2) if call_name(c) == ifb2.name]
+    if not recs or pth is None:
+        raise AnalysisError('R05.7: the recursion of compute_mro.init_finalbaseobjects was not found')
+    for c in recs:
+        arg = c.args[1] if len(c.args) > 1 else next((k.value for k in c.keywords if k.arg == pth), None)
+        fresh = isinstance(arg, ast.Call) and (call_name(arg) in ('copy', 'list') or (isinstance(arg.func, ast.Attribute) and arg.func.attr == 'copy')) or \
+            isinstance(arg, (ast.BinOp, ast.List))
+        chk.ob('R05.7', f'{ifb2.qn} :: each branch of the hierarchy gets its own copy of the path', bool(fresh),
+               f'{norm(arg) if arg is not None else "?"}' if fresh else
+               f'`{norm(c)[:60]}` hands the same list to sibling branches: the second branch of a diamond finds the common root already in the path and a cycle '
+               'is reported for a hierarchy Python accepts', repo.loc(ifb2.mod, c))
+    chk.require('R05.7', 2)
+
+    # ------------------------------------------------------------------ R05.8
+    # the per-base tables of a class page: the first chain is dropped only when it is the chain of the class itself (a class without visible
+    # members of its own has no such chain - then the first chain is the first base that contributes members)
+    bt = repo.func('pydoctor.templatewriter.pages.ClassPage.baseTables')
+    cfb = CFG(bt)
+    dels = [n for n in bt.walk() if isinstance(n, ast.Delete) and any(isinstance(t, ast.Subscript) and norm(t.slice) == '0' for t in n.targets)] + \
+           [n for n in bt.walk() if isinstance(n, ast.Expr) and isinstance(n.value, ast.Call) and call_name(n.value) == 'pop' and n.value.args and norm(n.value.args[0]) == '0']
+    for d_ in dels:
+        own = any(pol and isinstance(x, ast.Compare) and len(x.ops) == 1 and isinstance(x.ops[0], (ast.Eq, ast.Is)) and
+                  ('self.ob' in (norm(x.left), norm(x.comparators[0]))) for x, pol in cfb.dominating_tests(d_))
+        chk.ob('R05.8', 'templatewriter.pages.ClassPage.baseTables :: the first chain is dropped only when it is the class itself', own,
+               'guarded by a comparison with self.ob' if own else
+               f'`{norm(d_)}` is unconditional: for `class Combined(A, B): pass` the members Python finds in the first contributing base are attributed to no '
+               'class on the page', repo.loc(bt.mod, d_))
+    if not dels:
+        chk.note('R05.8: ClassPage.baseTables no longer drops a chain')
 
